@@ -228,6 +228,8 @@ def run_case(case, keep_log=False):
     t0, t1 = xf(cfg["t0"]), xf(cfg["t1"])
     try:
         for i, op in enumerate(case["ops"]):
+            if bm.apply_env(op):
+                continue
             td0 = getattr(built.interval, "_tree_dt", None) if built.interval is not None else None
             if op["op"] == "point":
                 t = xf(op["t"])
@@ -309,6 +311,8 @@ def run_case(case, keep_log=False):
         probes["truncated_designed_bound"] = 1
     except Violation as v:
         violation = v.to_json()
+    finally:
+        bm.restore_env()
     probes["chen_triple"] = chen.n_W
     probes["chen_triple_U"] = chen.n_U
     probes["refined_mid_history"] = refinements
